@@ -39,6 +39,8 @@ noncomputable def unentValue (π : X → Y → ℝ) (P : A → B → X → Y →
     (f : X → A) (g : Y → B) (ρ : Matrix (Fin d) (Fin d) ℂ) : ℝ :=
   (avgMat π P f g * ρ).trace.re
 
+/-- The question-averaged operator of Hermitian referee operators (real weights) is Hermitian, so that its
+largest eigenvalue is defined. -/
 theorem avgMat_isHermitian (π : X → Y → ℝ) (P : A → B → X → Y → Matrix (Fin d) (Fin d) ℂ)
     (hP : ∀ a b x y, (P a b x y).IsHermitian) (f : X → A) (g : Y → B) : (avgMat π P f g).IsHermitian := by
   unfold avgMat Matrix.IsHermitian
@@ -65,6 +67,93 @@ theorem unentangled_eq_max_over_functions (π : X → Y → ℝ)
     exact (psd_sub_iff_forall_density (avgMat_isHermitian π P hP f g) c).mp (h f g) ρ hρ
 
 end GameSpec
+
+/-! ## The non-signalling program (`nonsignaling_value`) -/
+
+section NS
+variable {d : Nat} {A B X Y : Type*} [Fintype A] [Fintype B] [Fintype X] [Fintype Y]
+
+/-- feasible point of the program solved by `nonsignaling_value`: operators `K a b x y ⪰ 0` whose marginals
+`Σ_b K a b x y = σ a x`, `Σ_a K a b x y = ρ b y` do not depend on the other player's question and sum to one
+density operator `τ` -/
+def NSFeasible (K : A → B → X → Y → Matrix (Fin d) (Fin d) ℂ) : Prop :=
+  (∀ a b x y, (K a b x y).PosSemidef) ∧
+    ∃ (σ : A → X → Matrix (Fin d) (Fin d) ℂ) (ρ : B → Y → Matrix (Fin d) (Fin d) ℂ)
+      (τ : Matrix (Fin d) (Fin d) ℂ),
+      (∀ a x y, ∑ b, K a b x y = σ a x) ∧ (∀ b x y, ∑ a, K a b x y = ρ b y) ∧
+        (∀ x, ∑ a, σ a x = τ) ∧ (∀ y, ∑ b, ρ b y = τ) ∧ IsDensity τ
+
+/-- objective of the non-signalling program, `Σ_{x,y} π(x,y) Σ_{a,b} Re tr(P a b x y · K a b x y)` -/
+noncomputable def nsValue (π : X → Y → ℝ) (P K : A → B → X → Y → Matrix (Fin d) (Fin d) ℂ) : ℝ :=
+  ∑ x, ∑ y, π x y * ∑ a, ∑ b, (P a b x y * K a b x y).trace.re
+
+/-- **Unentangled ≤ non-signalling**: every deterministic unentangled strategy `(f, g, ρ)` is a feasible point
+of the non-signalling program with the same value (`K a b x y = ρ` if `a = f x` and `b = g y`, else `0`). -/
+theorem unent_le_ns [DecidableEq A] [DecidableEq B] (π : X → Y → ℝ)
+    (P : A → B → X → Y → Matrix (Fin d) (Fin d) ℂ) (f : X → A) (g : Y → B)
+    (ρ : Matrix (Fin d) (Fin d) ℂ) (hρ : IsDensity ρ) :
+    ∃ K : A → B → X → Y → Matrix (Fin d) (Fin d) ℂ, NSFeasible K ∧ nsValue π P K = unentValue π P f g ρ := by
+  refine ⟨fun a b x y => if a = f x ∧ b = g y then ρ else 0, ⟨?_, ?_⟩, ?_⟩
+  · intro a b x y
+    by_cases h : a = f x ∧ b = g y
+    · simp only [h, and_self, if_true]; exact hρ.1
+    · simp only [h, if_false]; exact Matrix.PosSemidef.zero
+  · refine ⟨fun a x => if a = f x then ρ else 0, fun b y => if b = g y then ρ else 0, ρ, ?_, ?_, ?_, ?_, hρ⟩
+    · intro a x y
+      by_cases h : a = f x <;> simp [h]
+    · intro b x y
+      by_cases h : b = g y <;> simp [h]
+    · intro x; simp
+    · intro y; simp
+  · unfold nsValue unentValue avgMat
+    rw [Finset.sum_mul, Matrix.trace_sum, Complex.re_sum]
+    refine Finset.sum_congr rfl fun x _ => ?_
+    rw [Finset.sum_mul, Matrix.trace_sum, Complex.re_sum]
+    refine Finset.sum_congr rfl fun y _ => ?_
+    rw [Matrix.smul_mul, Matrix.trace_smul, smul_eq_mul, Complex.re_ofReal_mul]
+    congr 1
+    rw [Finset.sum_eq_single (f x)]
+    · rw [Finset.sum_eq_single (g y)]
+      · simp
+      · intro b _ hb; simp [hb]
+      · simp
+    · intro a _ ha; simp [ha]
+    · simp
+
+/-- **Non-signalling value ≤ operator-norm bound**: if `π` is a probability distribution and every referee
+operator satisfies `P a b x y ⪯ c·1`, every feasible point of the non-signalling program has value at most `c`. -/
+theorem ns_le_of_pred_le (π : X → Y → ℝ) (P K : A → B → X → Y → Matrix (Fin d) (Fin d) ℂ) (c : ℝ)
+    (hπ : ∀ x y, 0 ≤ π x y) (hsum : ∑ x, ∑ y, π x y = 1)
+    (hP : ∀ a b x y, ((c : ℂ) • (1 : Matrix (Fin d) (Fin d) ℂ) - P a b x y).PosSemidef)
+    (hK : NSFeasible K) : nsValue π P K ≤ c := by
+  obtain ⟨hpsd, σ, ρ, τ, hσ, -, hστ, -, hτ⟩ := hK
+  have hxy : ∀ x y, ∑ a, ∑ b, (P a b x y * K a b x y).trace.re ≤ c := by
+    intro x y
+    have h1 : ∀ a b, (P a b x y * K a b x y).trace.re ≤ c * (K a b x y).trace.re := by
+      intro a b
+      have h := psd_trace_mul_nonneg (hP a b x y) (hpsd a b x y)
+      rw [Matrix.sub_mul, Matrix.trace_sub, Matrix.smul_mul, Matrix.trace_smul, Matrix.one_mul,
+        Complex.sub_re, smul_eq_mul, Complex.re_ofReal_mul] at h
+      linarith
+    have h2 : ∑ a, ∑ b, (K a b x y).trace.re = 1 := by
+      have : ∑ a, ∑ b, K a b x y = τ := by
+        rw [← hστ x]
+        exact Finset.sum_congr rfl fun a _ => hσ a x y
+      have h3 := congrArg (fun M => (Matrix.trace M).re) this
+      simp only [Matrix.trace_sum, Complex.re_sum, hτ.2, Complex.one_re] at h3
+      exact h3
+    calc ∑ a, ∑ b, (P a b x y * K a b x y).trace.re
+        ≤ ∑ a, ∑ b, c * (K a b x y).trace.re :=
+          Finset.sum_le_sum fun a _ => Finset.sum_le_sum fun b _ => h1 a b
+      _ = c * ∑ a, ∑ b, (K a b x y).trace.re := by simp only [Finset.mul_sum]
+      _ = c := by rw [h2, mul_one]
+  unfold nsValue
+  calc ∑ x, ∑ y, π x y * ∑ a, ∑ b, (P a b x y * K a b x y).trace.re
+      ≤ ∑ x, ∑ y, π x y * c :=
+        Finset.sum_le_sum fun x _ => Finset.sum_le_sum fun y _ => mul_le_mul_of_nonneg_left (hxy x y) (hπ x y)
+    _ = c := by simp only [← Finset.sum_mul, hsum, one_mul]
+
+end NS
 
 /-! ## `λ_max` enclosure by certificates -/
 
@@ -106,7 +195,9 @@ def gPred (G : Game d) : Fin G.nA → Fin G.nB → Fin G.nX → Fin G.nY → Mat
 /-- a function on `Fin k` as a function on `Nat` (0 outside) -/
 def extFn {k n : Nat} (f : Fin k → Fin n) : Nat → Nat := fun x => if h : x < k then (f ⟨x, h⟩).val else 0
 
-theorem toM_avgOperator_ext (G : Game d) (f : Fin G.nX → Fin G.nA) (g : Fin G.nY → Fin G.nB) :
+/-- Model = specification: the executable `avgOperator` (exact arithmetic over `ℚ[i]`, loops over `x < nX`,
+`y < nY`) denotes the mathematical operator `Σ_{x,y} π(x,y) P (f x) (g y) x y` of the game. -/
+theorem avgOperator_eq_avgMat (G : Game d) (f : Fin G.nX → Fin G.nA) (g : Fin G.nY → Fin G.nB) :
     (avgOperator G (extFn f) (extFn g)).toM = avgMat (gProb G) (gPred G) f g := by
   rw [toM_avgOperator]
   unfold avgMat gProb gPred
@@ -121,7 +212,7 @@ theorem checkUnentUpper_sound (G : Game d) (c : Rat) (Ls : Nat → EMat d d) (h 
   intro f g ρ hρ
   have hpsd := Toq.ExtGames.checkUnentUpper_sound G c Ls h (extFn f) (extFn g)
     (fun x hx => by simp [extFn, hx]) (fun y hy => by simp [extFn, hy])
-  rw [toM_avgOperator_ext] at hpsd
+  rw [avgOperator_eq_avgMat] at hpsd
   exact trace_mul_le_of_psd hpsd hρ.1 hρ.2
 
 /-- If the lower checker accepts with value `lo`, there are answer functions and a referee state whose
@@ -144,7 +235,7 @@ theorem checkUnentLower_sound (G : Game d) (fl gl : List Nat) (v : EMat d 1) (lo
     obtain ⟨hd, hval⟩ := density_of_col v.toM hpos
     refine ⟨f, g, _, hd, ?_⟩
     unfold unentValue
-    rw [hval, ← toM_avgOperator_ext, hq, mul_comm (lo : ℝ), ← mul_assoc, inv_mul_cancel₀ hpos.ne', one_mul]
+    rw [hval, ← avgOperator_eq_avgMat, hq, mul_comm (lo : ℝ), ← mul_assoc, inv_mul_cancel₀ hpos.ne', one_mul]
   · exact absurd h (by simp)
 
 /-- Accepted certificates bracket the unentangled value. -/
@@ -164,7 +255,7 @@ theorem checkUnentConstUpper_sound (G : Game d) (c : Rat) (Ls : Nat → EMat d d
   have hpsd := Toq.ExtGames.checkUnentConstUpper_sound G c Ls h a.val b.val a.isLt b.isLt
   have hop : constOperator G a.val b.val = avgOperator G (extFn fun _ : Fin G.nX => a) (extFn fun _ : Fin G.nY => b) :=
     avgOperator_congr G _ _ _ _ (fun x hx => by simp [extFn, hx]) (fun y hy => by simp [extFn, hy])
-  rw [hop, toM_avgOperator_ext] at hpsd
+  rw [hop, avgOperator_eq_avgMat] at hpsd
   exact trace_mul_le_of_psd hpsd hρ.1 hρ.2
 
 /-- Mirror of the code: an accepted constant-answer lower certificate is the value of a strategy with
@@ -186,7 +277,7 @@ theorem checkUnentConstLower_sound (G : Game d) (a b : Nat) (v : EMat d 1) (lo :
     obtain ⟨hd, hval⟩ := density_of_col v.toM hpos
     refine ⟨⟨a, ha⟩, ⟨b, hb⟩, _, hd, ?_⟩
     unfold unentValue
-    rw [hval, ← toM_avgOperator_ext, hq, mul_comm (lo : ℝ), ← mul_assoc, inv_mul_cancel₀ hpos.ne', one_mul]
+    rw [hval, ← avgOperator_eq_avgMat, hq, mul_comm (lo : ℝ), ← mul_assoc, inv_mul_cancel₀ hpos.ne', one_mul]
   · exact absurd h (by simp)
 
 /-- The quantity computed by the code never exceeds the unentangled value: a bound for all answer functions
